@@ -1,0 +1,81 @@
+//!
+//! Verification seams. This module only exists when the crate is compiled with
+//! `RUSTFLAGS="--cfg nexrad_verif"`; it is never part of a normal build. It lets a deterministic
+//! simulator own the two sources of nondeterminism the AWS layer touches: the HTTP transport
+//! behind `reqwest::get` and the wall clock behind `chrono::Utc::now()`. When nothing is installed
+//! both seams fall through to the real implementations.
+//!
+
+use chrono::DateTime;
+use std::cell::RefCell;
+use std::future::Future;
+use std::pin::Pin;
+use std::rc::Rc;
+
+/// The future returned by a simulated transport.
+pub type GetFuture =
+    Pin<Box<dyn Future<Output = std::result::Result<::reqwest::Response, ::reqwest::Error>>>>;
+
+/// A replacement for `reqwest::get`.
+pub trait Transport {
+    /// Performs a GET request for the given URL.
+    fn get(&self, url: String) -> GetFuture;
+}
+
+thread_local! {
+    static TRANSPORT: RefCell<Option<Rc<dyn Transport>>> = const { RefCell::new(None) };
+    static CLOCK: RefCell<Option<Rc<dyn Fn() -> DateTime<chrono::Utc>>>> = const { RefCell::new(None) };
+}
+
+/// Installs (or removes) the transport used by this thread.
+pub fn install_transport(transport: Option<Rc<dyn Transport>>) {
+    TRANSPORT.with(|slot| *slot.borrow_mut() = transport);
+}
+
+/// Installs (or removes) the clock used by this thread.
+pub fn install_clock(clock: Option<Rc<dyn Fn() -> DateTime<chrono::Utc>>>) {
+    CLOCK.with(|slot| *slot.borrow_mut() = clock);
+}
+
+/// Shadows the `reqwest` crate name inside the S3 request functions.
+pub mod reqwest {
+    pub use ::reqwest::*;
+
+    /// Dispatches to the installed transport, or to the real `reqwest::get` when none is installed.
+    pub async fn get<T: ::reqwest::IntoUrl + AsRef<str>>(
+        url: T,
+    ) -> std::result::Result<::reqwest::Response, ::reqwest::Error> {
+        let transport = super::TRANSPORT.with(|slot| slot.borrow().clone());
+        match transport {
+            Some(transport) => transport.get(url.as_ref().to_string()).await,
+            None => ::reqwest::get(url).await,
+        }
+    }
+}
+
+/// Shadows `chrono::Utc` where the current time is read.
+pub struct Utc;
+
+impl Utc {
+    /// Reads the installed clock, or the system clock when none is installed.
+    pub fn now() -> DateTime<chrono::Utc> {
+        let clock = CLOCK.with(|slot| slot.borrow().clone());
+        match clock {
+            Some(clock) => clock(),
+            None => chrono::Utc::now(),
+        }
+    }
+}
+
+/// Public wrapper around the crate-private rotated search used by latest-volume discovery.
+pub async fn search<F, V>(
+    element_count: usize,
+    target: V,
+    f: impl FnMut(usize) -> F,
+) -> crate::result::Result<Option<usize>>
+where
+    F: Future<Output = crate::result::Result<Option<V>>>,
+    V: PartialOrd + Clone,
+{
+    crate::aws::realtime::search_for_verif(element_count, target, f).await
+}
